@@ -1,3 +1,19 @@
-fn main() {
-    println!("vh skeleton");
+//! Conformance harness: drives the real code built from /repo's working tree (hooks on) from
+//! TLC-generated behaviours, and records real executions for trace validation.
+mod pool;
+
+use anyhow::{anyhow, Result};
+
+pub fn seed() -> u64 {
+    std::env::var("VERIF_SEED").ok().and_then(|s| s.parse().ok()).unwrap_or(1)
+}
+
+fn main() -> Result<()> {
+    let args: Vec<String> = std::env::args().collect();
+    let cmd = args.get(1).map(|s| s.as_str()).unwrap_or("");
+    match cmd {
+        "pool-replay" => pool::replay(&args[2], &args[3]),
+        "pool-record" => pool::record(&args[2], seed(), args[3].parse()?, args[4].parse()?, args[5].parse()?),
+        _ => Err(anyhow!("unknown subcommand {cmd}")),
+    }
 }
